@@ -2231,7 +2231,7 @@ def jobs(tier, scale=1.0):
             js.append({"unit": "c08:unit_tl_exhaust", "params": P(lo=lo, hi=lo + 4)})
     nder = (4 if q else 16) if scale >= 1.0 else 2
     for k in range(nder):
-        js.append({"unit": "c08:unit_der", "params": P(chunk=k, of=nder, **({} if q else {"extra": 40, "random": 20000}))})
+        js.append({"unit": "c08:unit_der", "params": P(chunk=k, of=nder, **({} if q else {"extra": 40, "random": 200000}))})
     js.append({"unit": "c08:unit_der_enc", "params": P()})
     js.append({"unit": "c08:unit_apdu", "params": P(part="roundtrip")})
     js.append({"unit": "c08:unit_apdu", "params": P(part="resp")})
